@@ -64,7 +64,6 @@ pub struct LayerM {
     pub role: u8,
     pub transparency: u8,
     pub default_font_page: u8,
-    pub preview: Option<(i8, i8)>,
     /// 0 = every row allocated to full width (Layer::new), 1 = rows/columns only as far as content reaches (as loaders leave them)
     pub storage: u8,
     pub cells: Vec<(u8, u8, CellM)>,
@@ -117,9 +116,6 @@ impl LayerM {
             }
         }
         l.set_offset((self.ox as i32, self.oy as i32));
-        if let Some((px, py)) = self.preview {
-            l.set_preview_offset(Some(Position::new(px as i32, py as i32)));
-        }
         l.role = role_of(self.role);
         l.transparency = self.transparency;
         l.properties.mode = mode_of(self.mode);
@@ -145,12 +141,11 @@ pub fn layer_strategy() -> BoxedStrategy<LayerM> {
     let misc = (
         prop_oneof![4 => Just(0u8), 1 => any::<u8>()],
         prop_oneof![6 => Just(0u8), 1 => Just(1u8)],
-        prop_oneof![9 => Just(None), 1 => (-2i8..=6, -2i8..=6).prop_map(Some)],
         prop_oneof![1 => Just(0u8), 1 => Just(1u8)],
     );
     let cells = prop::collection::vec((0u8..30, 0u8..20, cell_strategy()), 0..=14);
     (geom, flags, misc, cells)
-        .prop_map(|((full, w, h, ox, oy), (alpha, visible, locked, pos_locked, alpha_locked, mode, role), (transparency, default_font_page, preview, storage), cells)| LayerM {
+        .prop_map(|((full, w, h, ox, oy), (alpha, visible, locked, pos_locked, alpha_locked, mode, role), (transparency, default_font_page, storage), cells)| LayerM {
             full,
             w,
             h,
@@ -165,7 +160,6 @@ pub fn layer_strategy() -> BoxedStrategy<LayerM> {
             role,
             transparency,
             default_font_page,
-            preview,
             storage,
             cells,
         })
@@ -425,7 +419,6 @@ pub fn fixed_doc(i: u8) -> DocM {
         role: 0,
         transparency: 0,
         default_font_page: 0,
-        preview: None,
         storage: 0,
         cells: vec![
             (0, 0, CellM::plain(b'A', 7, 0)),
